@@ -394,7 +394,16 @@ def names_family(twice=False):
                f"while True:\n    d2.Setting = {fc}(d0.Setting) + {fa}(1)\n" +
                (f"    d3.Setting = {fb}(2) + {fc}(1)\n" if twice else "") + "    yield_()\n")
         out.append((nm + ("2" if twice else ""), src, "names"))
+    out.append(("nm_device_named_like_labels", label_like_names_program(), "names"))
     return out
+
+
+def label_like_names_program():
+    """device names / HASH arguments that equal a function's name or a generated label (the labels are substituted textually)"""
+    return (corpus.HEADER + "def fill(xa):\n    d1.Setting = xa\n    return xa + 1\n"
+            "while True:\n    d0.Setting = fill(d0.Setting) + fill(2)\n    ActiveVents[\"fill\"].On = 1\n"
+            "    if d2.Setting > 0:\n        d2.Setting = HASH(\"lbwhile1\") + d0.Setting\n    d3.Setting = HASH(\"lbwhile2\")\n"
+            "    d4.Setting = HASH(\"a fill b\")\n    d5.Setting = HASH(\"fillend\")\n    ActiveVents[\"lbend3\"].Lock = 1\n    ActiveVents[\"lbend4\"].Lock = 0\n    yield_()\n")
 
 
 def owners_of(code, post):
@@ -628,8 +637,33 @@ def check_c07(tier, t0):
 # ---------------------------------------------------------------------------------------
 # C08: compact vs verbose
 # ---------------------------------------------------------------------------------------
+def generated_names(tier):
+    """Every name NameGen.tla reaches (up to 2 atoms; 3 in the thorough tier), as programs of eight names each."""
+    d = workdir("C08")
+    with open(os.path.join(d, "NameGen.cfg"), "w") as f:
+        f.write("SPECIFICATION Spec\nCONSTANT MaxAtoms = %d\nINVARIANT Export\nCHECK_DEADLOCK FALSE\n" % (3 if tier == "thorough" else 2))
+    r = run_tlc(os.path.join(SPEC, "NameGen.tla"), os.path.join(d, "NameGen.cfg"), d, workers=8, timeout=900)
+    if not r.ok:
+        raise MachineryError("NameGen.tla: " + r.out[-3000:])
+    names = {}
+    for p in r.tagged("NAME"):
+        o = json.loads(p[1])
+        w = bytes(o["written"]).decode("utf-8")
+        h = bytes(o["hashed"]).decode("utf-8")
+        if ic10load.signed_crc32(h) != o["value"]:
+            raise MachineryError("the loader's CRC-32 and Crc32.tla disagree on %r" % h)
+        names[w] = o
+    ws = sorted(names)
+    progs = []
+    for k in range(0, len(ws), 8):
+        body = "\n".join("d%d.Setting = HASH(%r)\nActiveVents[%r].On = %d" % (j % 6, w, w, j) for j, w in enumerate(ws[k:k + 8]))
+        progs.append(("st_gen_%03d" % (k // 8), corpus._loop(body), "strings"))
+    return progs, len(ws), r
+
+
 def check_c08(tier, t0):
-    progs = pick(all_progs(), tier, 30) + [(n, s, "strings") for n, s in strings_family()]
+    gen, nnames, rgen = generated_names(tier)
+    progs = pick(all_progs(), tier, 30) + [(n, s, "strings") for n, s in strings_family()] + gen
     bases = [cw.REF, cw.opts(inline_functions=True, remove_labels=True)]
     vecs = []
     for b in bases:
@@ -691,7 +725,7 @@ def check_c08(tier, t0):
                              "case=%s variant=%s verdict=%s" % (m["name"], m["tag"], v)):
                 nviol += 1
     cov = {"programs": len(cases), "disagreements_checked": len(cases), "states": r.distinct, "transitions": r.generated,
-           "traces_validated_against_impl": len(cases), "hash_tokens_recomputed_in_tlc": nhash, "inconclusive_unresolved_operand": ninc,
+           "traces_validated_against_impl": len(cases), "hash_tokens_recomputed_in_tlc": nhash, "names_enumerated_by_NameGen": nnames, "namegen_states": rgen.distinct, "inconclusive_unresolved_operand": ninc,
            "samples": [{"case": m["name"], "variant": m["tag"], "verbose": m["a_text"], "compact": m["b_text"]} for m in meta[-2:]],
            "rule": "each program compiled verbose and compact under otherwise equal options; both texts are resolved by the loader "
                    "(HASH = signed CRC-32, STR = big-endian packing, enum names = numbers, $hex) and TLC compares the instruction "
@@ -718,6 +752,7 @@ def strings_family():
     for k, nm in enumerate(["Silo", "Ash", "HASH", "Tank (A)", "Station", "Küche", "Wärmetauscher", "泵"]):
         body = f'd0.Setting = (HASH("{nm}") % 256) + 1\nd1.Setting = HASH("{nm}")\nd2.Setting = GrowLights["{nm}"].On.Maximum\nGrowLights["{nm}"].On = HASH("{nm}") > 0'
         out.append((f"st_fold_{k}", corpus._loop(body)))
+    out.append(("st_label_like_names", label_like_names_program()))
     out.append(("st_enum", corpus._loop("d2.Setting = Color.Red + Color.Green\nd1.Setting = d0.Mode + LogicBatchMethod.Maximum")))
     return out
 
